@@ -139,6 +139,11 @@ func init() {
 					cfg.Stores[i] = "inmem"
 				}
 				cfg.Steps = r.Range(12, 60)
+				if cfg.Steps > 24 && cfg.Steps%2 == 0 {
+					// most of the tails that matter are very short: activity stops while
+					// the first elections are still open
+					cfg.Steps = 10 + cfg.Steps%15
+				}
 				cfg.Straggler = 1 + r.Intn(cfg.N0)
 				cfg.StragglerP = []float64{0.03, 0.1, 0.2}[r.Intn(3)]
 				cfg.StragglerListens = r.Bool(0.5)
